@@ -58,6 +58,21 @@ func provenance(fc *freshCtx, v ssa.Value) []prov {
 				out = append(out, prov{"fresh", v, nil})
 				return
 			}
+			// a helper that returns (a re-slicing of / an append to) its argument: the result comes from
+			// wherever that argument comes from
+			if f := x.Call.StaticCallee(); f != nil {
+				if f.Origin() != nil {
+					f = f.Origin()
+				}
+				if ps, ok := fc.passThrough[f]; ok {
+					for i := range ps {
+						if i < len(x.Call.Args) {
+							walk(x.Call.Args[i])
+						}
+					}
+					return
+				}
+			}
 			out = append(out, prov{"call", v, nil})
 		case *ssa.Extract:
 			if call, ok := x.Tuple.(*ssa.Call); ok {
@@ -356,6 +371,7 @@ func w6Operand(fc *freshCtx, fn *ssa.Function, app *ssa.Call, v ssa.Value, seen 
 				}
 			}
 			n, bad := 0, ""
+			allOwn := true
 			w6Depth++
 			for _, g := range w6Prog.Funcs {
 				eachInstr(g, func(in ssa.Instruction) {
@@ -364,12 +380,19 @@ func w6Operand(fc *freshCtx, fn *ssa.Function, app *ssa.Call, v ssa.Value, seen 
 						return
 					}
 					n++
-					if r, why := w6Operand(fc, g, ci, ci.Call.Args[idx], map[ssa.Value]bool{}); r == "bad" {
+					r, why := w6Operand(fc, g, ci, ci.Call.Args[idx], map[ssa.Value]bool{})
+					if r == "bad" {
 						bad = why
+					}
+					if !(r == "ok" && strings.HasPrefix(why, "the object's own")) {
+						allOwn = false
 					}
 				})
 			}
 			w6Depth--
+			if n > 0 && bad == "" && allOwn {
+				return "ok", fmt.Sprintf("the object's own field at all %d call sites of private helper %s, whose result is stored back", n, fnName(top))
+			}
 			if n > 0 && bad == "" {
 				return "ok", fmt.Sprintf("parameter of private helper %s: all %d call sites pass fresh or clamped storage", fnName(top), n)
 			}
